@@ -1247,8 +1247,10 @@ _lookup(LB* self,
         return NULL;
 
     cache = _getcache(self, provided, name);
-    if (cache == NULL)
+    if (cache == NULL) {
+        Py_DECREF(required);
         return NULL;
+    }
     /* `_uncached_lookup` (or another thread meanwhile) can call `changed()`,
        which releases the caches; keep the dictionary we store into alive.
        Like the Python implementation, we then fill a detached dictionary. */
@@ -1518,8 +1520,10 @@ _lookupAll(LB* self, PyObject* required, PyObject* provided)
     ASSURE_DICT(self->_mcache);
 
     cache = _subcache(self->_mcache, provided);
-    if (cache == NULL)
+    if (cache == NULL) {
+        Py_DECREF(required);
         return NULL;
+    }
     /* keep the cache alive across the call back into Python, see _lookup */
     Py_INCREF(cache);
 
@@ -1591,8 +1595,10 @@ _subscriptions(LB* self, PyObject* required, PyObject* provided)
     ASSURE_DICT(self->_scache);
 
     cache = _subcache(self->_scache, provided);
-    if (cache == NULL)
+    if (cache == NULL) {
+        Py_DECREF(required);
         return NULL;
+    }
     /* keep the cache alive across the call back into Python, see _lookup */
     Py_INCREF(cache);
 
